@@ -105,6 +105,12 @@ Proof.
   apply forallb_update_nth; [exact G2|exact Hf].
 Qed.
 
+Lemma existsb_none {A} (f : A -> bool) l : (forall x, In x l -> f x = false) -> existsb f l = false.
+Proof.
+  induction l as [|x r IH]; intros H; [reflexivity|]. cbn [existsb]. rewrite (H x (or_introl eq_refl)). apply IH.
+  intros y Hy. apply H. right. exact Hy.
+Qed.
+
 Theorem plain_step t o : plain t = true -> is_merge o = false ->
   step t o <> Panic /\ (forall t', step t o = Ok t' -> plain t' = true).
 Proof.
@@ -154,6 +160,8 @@ Proof.
     rewrite (ensure_grid_full g (length r0) L0).
     apply orb_false_iff in B. destruct B as [B1 B2]. apply Z.ltb_ge in B1. apply Z.ltb_ge in B2.
     assert (Hp : Z.to_nat pos <= length g) by lia.
+    rewrite (existsb_none (fun rw => Nat.ltb (length rw) (Z.to_nat pos)) (r0 :: rest)).
+    2:{ intros rw Hin. apply Nat.ltb_ge. rewrite (rows_all_len g (r0 :: rest) rw H1 Hin). exact Hp. }
     set (p := Z.to_nat pos) in *.
     assert (IG : insert_at p width g = Some (firstn p g ++ width :: skipn p g)).
     { unfold insert_at. assert (Ep : Nat.leb p (length g) = true) by now apply Nat.leb_le. now rewrite Ep. }
@@ -179,6 +187,8 @@ Proof.
     rewrite (ensure_grid_full g (length r0) L0).
     apply negb_false_iff in B. unfold in_range in B. apply andb_true_iff in B. destruct B as [Ba Bb].
     apply Z.leb_le in Ba. apply Z.ltb_lt in Bb. apply Nat.leb_gt in B1.
+    rewrite (existsb_none (fun rw => Nat.leb (length rw) (Z.to_nat i)) (r0 :: rest)).
+    2:{ intros rw Hin. apply Nat.leb_gt. rewrite (rows_all_len g (r0 :: rest) rw H1 Hin). lia. }
     set (p := Z.to_nat i) in *. assert (Hp : p < length g) by lia.
     assert (DG : delete_range p p g = Some (firstn p g ++ skipn (S p) g)).
     { unfold delete_range. assert (Ep : Nat.leb (S p) (length g) = true) by (apply Nat.leb_le; lia). now rewrite Ep. }
@@ -201,6 +211,8 @@ Proof.
     rewrite (ensure_grid_full g (length r0) L0).
     apply orb_false_iff in B. destruct B as [B Bc]. apply orb_false_iff in B. destruct B as [Ba Bb].
     apply Z.ltb_ge in Ba. apply Z.leb_gt in Bb. apply Z.ltb_ge in Bc. apply Z.ltb_ge in B1.
+    rewrite (existsb_none (fun rw => Nat.leb (length rw) (Z.to_nat b)) (r0 :: rest)).
+    2:{ intros rw Hin. apply Nat.leb_gt. rewrite (rows_all_len g (r0 :: rest) rw H1 Hin). lia. }
     set (p := Z.to_nat a) in *. set (q := Z.to_nat b) in *.
     assert (Hpq : p <= q) by lia. assert (Hq : q < length g) by lia.
     assert (DG : delete_range p q g = Some (firstn p g ++ skipn (S q) g)).
@@ -352,6 +364,7 @@ Theorem delete_column_matrix t i t' : step t (DeleteColumn i) = Ok t' ->
 Proof.
   unfold step. destruct (rows t) as [|r0 rest] eqn:R; [intros HH; cbv beta iota in HH; discriminate HH|].
   destruct (negb (in_range i (length r0))); [intros HH; cbv beta iota in HH; discriminate HH|]. destruct (Nat.leb (length r0) 1); [intros HH; cbv beta iota in HH; discriminate HH|].
+  destruct (existsb (fun rw => Nat.leb (length rw) (Z.to_nat i)) (r0 :: rest)); [intros HH; cbv beta iota in HH; discriminate HH|].
   destruct (delete_range (Z.to_nat i) (Z.to_nat i) (ensure_grid (grid t) (length r0))); [|intros HH; cbv beta iota in HH; discriminate HH].
   destruct (map_opt (delete_range (Z.to_nat i) (Z.to_nat i)) (r0 :: rest)) as [rs|] eqn:M; [|intros HH; cbv beta iota in HH; discriminate HH].
   intros H. apply ok_inj in H. subst t'. rewrite !matrix_rows. cbn [rows]. rewrite R.
@@ -387,12 +400,22 @@ Definition t33 : table := create 3 3 [1000; 1000; 1000]%N.
 Definition after (ops : list top) (t : table) : option table :=
   fold_left (fun s o => match s with Some x => state_after x o | None => None end) ops (Some t).
 
+(* the column edits address physical cells: after a horizontal merge the new column is not one column of the grid
+   (in row 1 it stands behind the merged cell, two grid columns further right than in row 0) *)
 Example refuted_insert_column_after_hmerge :
-  match after [MergeH 1 0 2] t33 with Some t => step t (InsertColumn 3 [] 1000%N) = Panic | None => False end.
+  match after [MergeH 1 0 1; InsertColumn 1 [5; 5; 5]%N 1000%N] t33 with
+  | Some t => map (fun rw => row_width (firstn 1 rw)) (rows t) = [1; 2; 1] | None => False end.
 Proof. vm_compute. reflexivity. Qed.
+(* deleting physical cell 0 of every row removes one grid column in rows 0 and 2 and two in row 1 *)
 Example refuted_delete_column_after_hmerge :
-  match after [MergeH 1 0 1] t33 with Some t => step t (DeleteColumn 2) = Panic | None => False end.
+  match after [MergeH 1 0 1; DeleteColumn 0] t33 with Some t => grid_inv t = false | None => False end.
 Proof. vm_compute. reflexivity. Qed.
+(* on a row that is shorter because of a merge the column edits are refused, with the table unchanged *)
+Example column_edit_refused_on_short_row :
+  match after [MergeH 1 0 2] t33 with
+  | Some t => step t (InsertColumn 3 [] 1000%N) = Err /\ step t (DeleteColumn 2) = Err /\ step t (DeleteColumns 1 2) = Err
+  | None => False end.
+Proof. vm_compute. repeat split; reflexivity. Qed.
 Example refuted_insert_row_after_hmerge :
   match after [MergeH 0 0 1; InsertRow 1 []] t33 with Some t => grid_inv t = false | None => False end.
 Proof. vm_compute. reflexivity. Qed.
@@ -418,65 +441,91 @@ Proof. unfold ensure_grid. destruct g as [l|]; rewrite app_length, repeat_length
 Definition is_column_edit (o : top) : bool :=
   match o with InsertColumn _ _ _ | DeleteColumn _ | DeleteColumns _ _ => true | _ => false end.
 
-(* whatever the grid definition (none, too short, too long): on rows of equal length without merges no column edit
-   panics *)
-Theorem column_edit_no_panic_any_grid g0 rws n o :
-  forallb (good_row n) rws = true -> is_column_edit o = true -> step (mkTable g0 rws) o <> Panic.
+(* the guard of the column edits, read back *)
+Lemma existsb_false_all {A} (f : A -> bool) l : existsb f l = false -> forall x, In x l -> f x = false.
 Proof.
-  intros H1 Ho. destruct o; try discriminate Ho; unfold step; cbn [rows grid].
+  induction l as [|a r IH]; intros H x Hx; [destruct Hx|]. cbn [existsb] in H. apply orb_false_iff in H. destruct H as [Ha Hr].
+  destruct Hx as [<-|Hx]; [exact Ha | apply IH; assumption].
+Qed.
+
+Lemma map_opt_mapi_insert p (f : nat -> cell) : forall rws k,
+  (forall rw, In rw rws -> p <= length rw) ->
+  map_opt (fun x => x) (mapi_aux (fun i rw => insert_at p (f i) rw) k rws) <> None.
+Proof.
+  induction rws as [|rw rws IH]; intros k H; cbn [mapi_aux map_opt]; [discriminate|].
+  unfold insert_at at 1. assert (Ep : Nat.leb p (length rw) = true) by (apply Nat.leb_le; apply H; left; reflexivity).
+  rewrite Ep. specialize (IH (S k) (fun x Hx => H x (or_intror Hx))).
+  destruct (map_opt (fun x => x) (mapi_aux (fun i rw0 => insert_at p (f i) rw0) (S k) rws)); [discriminate | contradiction].
+Qed.
+
+Lemma map_opt_delete a b : forall (rws : list row),
+  (forall rw, In rw rws -> S b <= length rw) -> map_opt (delete_range a b) rws <> None.
+Proof.
+  induction rws as [|rw rws IH]; intros H; cbn [map_opt]; [discriminate|].
+  unfold delete_range at 1. assert (Ep : Nat.leb (S b) (length rw) = true) by (apply Nat.leb_le; apply H; left; reflexivity).
+  rewrite Ep. specialize (IH (fun x Hx => H x (or_intror Hx))).
+  destruct (map_opt (delete_range a b) rws); [discriminate | contradiction].
+Qed.
+
+(* whatever the table - any grid definition (none, too short, too long), rows of different lengths, merges anywhere -
+   no column edit panics: it succeeds or it is refused *)
+Theorem column_edit_never_panics t o : is_column_edit o = true -> step t o <> Panic.
+Proof.
+  intros Ho. destruct t as [g0 rws]. destruct o; try discriminate Ho; unfold step; cbn [rows grid].
   - (* InsertColumn *)
     destruct rws as [|r0 rest]; [discriminate|].
     destruct ((pos <? 0)%Z || (Z.of_nat (length r0) <? pos)%Z) eqn:B; [discriminate|].
     destruct (Nat.ltb (length (r0 :: rest)) (length data)); [discriminate|].
-    assert (L0 : length r0 = n) by (apply good_row_len; cbn [forallb] in H1; apply andb_true_iff in H1; apply H1).
+    destruct (existsb (fun rw => Nat.ltb (length rw) (Z.to_nat pos)) (r0 :: rest)) eqn:EX; [discriminate|].
     apply orb_false_iff in B. destruct B as [B1 B2]. apply Z.ltb_ge in B1. apply Z.ltb_ge in B2.
     pose proof (ensure_grid_length g0 (length r0)) as LG.
     set (g := ensure_grid g0 (length r0)) in *. set (p := Z.to_nat pos) in *.
-    assert (Hp : p <= n) by lia.
     assert (IG : insert_at p width g = Some (firstn p g ++ width :: skipn p g)).
     { unfold insert_at. assert (Ep : Nat.leb p (length g) = true) by (apply Nat.leb_le; lia). now rewrite Ep. }
     rewrite IG.
-    assert (MO : map_opt (fun x => x) (mapi (fun i rw => insert_at p (new_cell (nth_text data i)) rw) (r0 :: rest))
-                 = Some (mapi (fun i rw => firstn p rw ++ new_cell (nth_text data i) :: skipn p rw) (r0 :: rest))).
-    { unfold mapi. generalize 0 as k. revert H1. generalize (r0 :: rest) as rws. induction rws as [|rw rws IH]; intros Hall k; simpl; [reflexivity|].
-      simpl in Hall. apply andb_true_iff in Hall. destruct Hall as [Ha Hb].
-      destruct (good_row_insert _ p (new_cell (nth_text data k)) rw Ha (good_new_cell _) Hp) as [Ei _].
-      rewrite Ei, (IH Hb (S k)). reflexivity. }
-    rewrite MO. discriminate.
+    pose proof (map_opt_mapi_insert p (fun i => new_cell (nth_text data i)) (r0 :: rest) 0) as MO.
+    unfold mapi.
+    destruct (map_opt (fun x => x) (mapi_aux (fun i rw => insert_at p (new_cell (nth_text data i)) rw) 0 (r0 :: rest))); [discriminate|].
+    exfalso. apply MO; [|reflexivity]. intros rw Hin.
+    pose proof (existsb_false_all _ _ EX rw Hin) as Hl. apply Nat.ltb_ge in Hl. exact Hl.
   - (* DeleteColumn *)
     destruct rws as [|r0 rest]; [discriminate|].
     destruct (negb (in_range i (length r0))) eqn:B; [discriminate|].
     destruct (Nat.leb (length r0) 1) eqn:B1; [discriminate|].
-    assert (L0 : length r0 = n) by (apply good_row_len; cbn [forallb] in H1; apply andb_true_iff in H1; apply H1).
+    destruct (existsb (fun rw => Nat.leb (length rw) (Z.to_nat i)) (r0 :: rest)) eqn:EX; [discriminate|].
     apply negb_false_iff in B. unfold in_range in B. apply andb_true_iff in B. destruct B as [Ba Bb].
-    apply Z.leb_le in Ba. apply Z.ltb_lt in Bb. apply Nat.leb_gt in B1.
+    apply Z.leb_le in Ba. apply Z.ltb_lt in Bb.
     pose proof (ensure_grid_length g0 (length r0)) as LG.
-    set (g := ensure_grid g0 (length r0)) in *. set (p := Z.to_nat i) in *. assert (Hp : p < n) by lia.
+    set (g := ensure_grid g0 (length r0)) in *. set (p := Z.to_nat i) in *.
     assert (DG : delete_range p p g = Some (firstn p g ++ skipn (S p) g)).
     { unfold delete_range. assert (Ep : Nat.leb (S p) (length g) = true) by (apply Nat.leb_le; lia). now rewrite Ep. }
     rewrite DG.
-    rewrite (map_opt_all _ (fun rw => firstn p rw ++ skipn (S p) rw)).
-    2:{ intros rw Hin. assert (Ga : good_row n rw = true) by (rewrite forallb_forall in H1; now apply H1).
-        now destruct (good_row_delete _ p p rw Ga (le_n p) Hp). }
-    discriminate.
+    pose proof (map_opt_delete p p (r0 :: rest)) as MO.
+    destruct (map_opt (delete_range p p) (r0 :: rest)); [discriminate|].
+    exfalso. apply MO; [|reflexivity]. intros rw Hin.
+    pose proof (existsb_false_all _ _ EX rw Hin) as Hl. apply Nat.leb_gt in Hl. lia.
   - (* DeleteColumns *)
     destruct rws as [|r0 rest]; [discriminate|].
     destruct ((a <? 0)%Z || (Z.of_nat (length r0) <=? b)%Z || (b <? a)%Z) eqn:B; [discriminate|].
     destruct (Z.of_nat (length r0) - (b - a + 1) <? 1)%Z eqn:B1; [discriminate|].
-    assert (L0 : length r0 = n) by (apply good_row_len; cbn [forallb] in H1; apply andb_true_iff in H1; apply H1).
+    destruct (existsb (fun rw => Nat.leb (length rw) (Z.to_nat b)) (r0 :: rest)) eqn:EX; [discriminate|].
     apply orb_false_iff in B. destruct B as [B Bc]. apply orb_false_iff in B. destruct B as [Ba Bb].
-    apply Z.ltb_ge in Ba. apply Z.leb_gt in Bb. apply Z.ltb_ge in Bc. apply Z.ltb_ge in B1.
+    apply Z.ltb_ge in Ba. apply Z.leb_gt in Bb. apply Z.ltb_ge in Bc.
     pose proof (ensure_grid_length g0 (length r0)) as LG.
     set (g := ensure_grid g0 (length r0)) in *. set (p := Z.to_nat a) in *. set (q := Z.to_nat b) in *.
-    assert (Hpq : p <= q) by lia. assert (Hq : q < n) by lia.
     assert (DG : delete_range p q g = Some (firstn p g ++ skipn (S q) g)).
     { unfold delete_range. assert (Ep : Nat.leb (S q) (length g) = true) by (apply Nat.leb_le; lia). now rewrite Ep. }
     rewrite DG.
-    rewrite (map_opt_all _ (fun rw => firstn p rw ++ skipn (S q) rw)).
-    2:{ intros rw Hin. assert (Ga : good_row n rw = true) by (rewrite forallb_forall in H1; now apply H1).
-        now destruct (good_row_delete _ p q rw Ga Hpq Hq). }
-    discriminate.
+    pose proof (map_opt_delete p q (r0 :: rest)) as MO.
+    destruct (map_opt (delete_range p q) (r0 :: rest)); [discriminate|].
+    exfalso. apply MO; [|reflexivity]. intros rw Hin.
+    pose proof (existsb_false_all _ _ EX rw Hin) as Hl. apply Nat.leb_gt in Hl. lia.
 Qed.
+
+(* the earlier statement (any grid definition, rows of equal length without merges) is a special case *)
+Theorem column_edit_no_panic_any_grid g0 rws n o :
+  forallb (good_row n) rws = true -> is_column_edit o = true -> step (mkTable g0 rws) o <> Panic.
+Proof. intros _ Ho. apply column_edit_never_panics. exact Ho. Qed.
 
 (* the repaired defect, as a computation: a 2x2 table read without a grid definition takes a new column *)
 Example insert_column_without_grid :
